@@ -59,23 +59,36 @@ class Lock:
 
 
 # ---------------------------------------------------------------- Gen
-def build_extract():
+def build_extract(prop=None, deps=()):
+    """Build the generator of ONE property: main.go, astutil.go, the shared translator files (every .go file
+    that is not a cNN*.go generator), the property's own c<nn>*.go and the generator files it declares in
+    EXTRACT_DEPS. A generator of another property that does not compile cannot break this one."""
     os.makedirs(BIN, exist_ok=True)
-    with Lock("gobuild_extract"):
-        rc, out, _ = sh(["go", "build", "-o", os.path.join(BIN, "extract"), "."], cwd=os.path.join(ROOT, "go", "extract"), env=goenv())
-    return rc, out
+    xdir = os.path.join(ROOT, "go", "extract")
+    files = []
+    for f in sorted(os.listdir(xdir)):
+        if not f.endswith(".go") or f.endswith("_test.go"):
+            continue
+        is_gen = re.match(r"^c\d\d", f) is not None
+        if not is_gen or prop is None or f.lower().startswith(prop.lower()) or f in deps:
+            files.append(f)
+    exe = os.path.join(BIN, "extract" + ("_" + prop.lower() if prop else ""))
+    with Lock("gobuild_extract" + (prop or "")):
+        rc, out, _ = sh(["go", "build", "-o", exe] + files, cwd=xdir, env=goenv())
+    return rc, out, exe
 
 
-def run_extract(prop):
+def run_extract(prop, deps=()):
     """Regenerate lean/BlugeGen/<prop>.lean (+ facts json). rc!=0 = the extractor refused."""
-    rc, out = build_extract()
+    rc, out, exe = build_extract(prop, deps)
     if rc != 0:
         return rc, "extractor does not build:\n" + out, {}
     os.makedirs(os.path.join(LEAN, "BlugeGen"), exist_ok=True)
     os.makedirs(os.path.join(WORK, prop), exist_ok=True)
     facts = os.path.join(WORK, prop, "facts.json")
-    if True:
-        rc, out, _ = sh([os.path.join(BIN, "extract"), "-repo", REPO, "-out", os.path.join(LEAN, "BlugeGen"), "-prop", prop, "-facts", facts], env=goenv())
+    if os.path.exists(facts):
+        os.remove(facts)
+    rc, out, _ = sh([exe, "-repo", REPO, "-out", os.path.join(LEAN, "BlugeGen"), "-prop", prop, "-facts", facts], env=goenv())
     f = {}
     if os.path.exists(facts):
         try:
